@@ -4,6 +4,7 @@ import (
 	"fmt"
 	"go/ast"
 	"go/constant"
+	"go/token"
 	"go/types"
 	"strings"
 
@@ -279,27 +280,30 @@ func checkC17(c *fw.Ctx) {
 // every return of an EventValidationError literal is classified by the comparison that
 // guards it; hard (code point / total size) refusals must not set Persistable, and every
 // hard check must precede (dominate) every lenient (byte-length) check.
-func checkFieldsTable(c *fw.Ctx) {
-	rule := "2 limits"
-	fn := mustFunc(c, rule, "CheckFields")
-	if fn == nil {
-		return
-	}
-	type site struct {
-		iff        *ssa.If
-		kind       string // "runes", "bytes", "json"
-		limit      string
-		persistSet bool
-	}
-	var sites []site
-	for _, iff := range fw.Ifs(fn) {
+type limitSite struct {
+	iff        *ssa.If
+	fr         *fw.Frame
+	kind       string // "runes", "bytes", "json"
+	limit      string
+	persistSet bool
+}
+
+// limitSites: the length comparisons (l > const) of root and of the callees `enter` admits,
+// classified by what is measured, with whether the refusal behind them is persistable.
+func limitSites(root *ssa.Function, enter func(*ssa.Function) bool) []limitSite {
+	var sites []limitSite
+	for _, di := range fw.DeepInstrsEnter(root, enter) {
+		iff, isIf := di.Instr.(*ssa.If)
+		if !isIf {
+			continue
+		}
 		b, ok := iff.Cond.(*ssa.BinOp)
 		if !ok {
 			continue
 		}
 		// l > maxIDLength / maxEventLength
 		lim, isC := fw.ConstInt(b.Y)
-		if !isC {
+		if !isC || b.Op != token.GTR {
 			continue
 		}
 		kind := ""
@@ -321,26 +325,114 @@ func checkFieldsTable(c *fw.Ctx) {
 		if kind == "" {
 			continue
 		}
-		// the failing branch is the true branch of ">"; find the EventValidationError built there
+		// the failing branch is the true branch of ">"; find the EventValidationError returned there
+		// (a literal built in place or by a helper; a named result assigned before a bare return)
 		tb := iff.Block().Succs[0]
-		persist := false
+		persist, isValidationErr := false, false
 		for _, ins := range tb.Instrs {
-			if st, ok := ins.(*ssa.Store); ok {
-				if fa, ok := st.Addr.(*ssa.FieldAddr); ok {
-					if s := derefStructName(fa.X.Type()); strings.HasSuffix(s, "EventValidationError") {
-						stt := fa.X.Type().Underlying().(*types.Pointer).Elem().Underlying().(*types.Struct)
-						if stt.Field(fa.Field).Name() == "Persistable" {
-							if cst, ok := st.Val.(*ssa.Const); !ok || cst.Value == nil || constant.BoolVal(cst.Value) {
-								persist = true
-							}
-						}
+			var errVal ssa.Value
+			switch x := ins.(type) {
+			case *ssa.Return:
+				if len(x.Results) > 0 {
+					errVal = x.Results[len(x.Results)-1]
+				}
+			case *ssa.Store:
+				if isErrorIface(x.Val.Type()) {
+					errVal = x.Val
+				}
+			}
+			if errVal == nil {
+				continue
+			}
+			val, _, found := fw.StructFieldValue(errVal, di.Fr, "Persistable", 0)
+			if found {
+				isValidationErr = true
+				if val != nil {
+					if cst, ok := val.(*ssa.Const); !ok || cst.Value == nil || constant.BoolVal(cst.Value) {
+						persist = true
 					}
 				}
 			}
 		}
-		sites = append(sites, site{iff: iff, kind: kind, limit: fmt.Sprint(lim), persistSet: persist})
+		if !isValidationErr {
+			continue
+		}
+		sites = append(sites, limitSite{iff: iff, fr: di.Fr, kind: kind, limit: fmt.Sprint(lim), persistSet: persist})
 	}
-	var hard, lenient []site
+	return sites
+}
+
+func isErrorIface(t types.Type) bool {
+	return types.Identical(t, types.Universe.Lookup("error").Type())
+}
+
+// anchorOf: the instruction of the root function through which a (possibly deep) site is reached.
+func (x limitSite) anchor() ssa.Instruction {
+	var a ssa.Instruction = x.iff
+	for f := x.fr; f != nil; f = f.Parent {
+		a = f.Site
+	}
+	return a
+}
+
+// hardBeforeLenient: on every path, hard site h is evaluated before lenient site l.
+func hardBeforeLenient(h, l limitSite) bool {
+	idx := func(i ssa.Instruction) int {
+		for k, x := range i.Block().Instrs {
+			if x == i {
+				return k
+			}
+		}
+		return -1
+	}
+	// the two sites are reached through chains of call sites; they are ordered at the first
+	// level where the chains differ (both instructions are then in the same function)
+	ch, cl := h.chain(), l.chain()
+	k := 0
+	for k < len(ch) && k < len(cl) && ch[k] == cl[k] {
+		k++
+	}
+	if k >= len(ch) || k >= len(cl) {
+		return false
+	}
+	ah, al := ch[k], cl[k]
+	// checks on mutually exclusive paths (e.g. the two CheckFields calls of a constructor, one
+	// on the hash-mismatch path) never run for the same event: nothing to order
+	if ah.Block() != al.Block() && !fw.ReachableFrom(ah.Block(), nil)[al.Block()] && !fw.ReachableFrom(al.Block(), nil)[ah.Block()] {
+		return true
+	}
+	if ah.Block() == al.Block() {
+		return idx(ah) < idx(al)
+	}
+	return ah.Block().Dominates(al.Block()) || postDominatedSkip(ah.Block(), al.Block())
+}
+
+// chain: the call sites through which the site is reached, outermost first, then the site.
+func (x limitSite) chain() []ssa.Instruction {
+	var rev []ssa.Instruction
+	rev = append(rev, x.iff)
+	for f := x.fr; f != nil; f = f.Parent {
+		rev = append(rev, f.Site)
+	}
+	for i, j := 0, len(rev)-1; i < j; i, j = i+1, j-1 {
+		rev[i], rev[j] = rev[j], rev[i]
+	}
+	return rev
+}
+
+// checkFieldsTable: CheckFields classification (oracle 4.9) decided structurally:
+// every return of an EventValidationError literal is classified by the comparison that
+// guards it; hard (code point / total size) refusals must not set Persistable, and every
+// hard check must precede (dominate) every lenient (byte-length) check - in CheckFields and
+// across each untrusted constructor that calls it.
+func checkFieldsTable(c *fw.Ctx) {
+	rule := "2 limits"
+	fn := mustFunc(c, rule, "CheckFields")
+	if fn == nil {
+		return
+	}
+	sites := limitSites(fn, func(f *ssa.Function) bool { return f.Object() == nil || !f.Object().Exported() })
+	var hard, lenient []limitSite
 	for _, s := range sites {
 		want := map[string]string{"runes": "255", "bytes": "255", "json": "65536"}[s.kind]
 		c.Check(s.limit == want, rule, fmt.Sprintf("CheckFields %s limit", s.kind), c.P.Pos(fw.InstrPos(s.iff)), s.limit, fmt.Sprintf("%s limit is %s, specification says %s", s.kind, s.limit, want))
@@ -355,12 +447,46 @@ func checkFieldsTable(c *fw.Ctx) {
 	}
 	c.Min(rule+" CheckFields hard checks", len(hard), 3)
 	c.Min(rule+" CheckFields lenient checks", len(lenient), 2)
-	// every hard check precedes every lenient check: no path reaches a lenient site without
-	// having evaluated all hard sites (block dominance)
 	for _, l := range lenient {
 		for _, h := range hard {
-			ok := h.iff.Block().Dominates(l.iff.Block()) || postDominatedSkip(h.iff, l.iff)
-			c.Check(ok, rule, "CheckFields: hard limits are checked before byte-only limits", c.P.Pos(fw.InstrPos(l.iff)), "", fmt.Sprintf("the persistable byte-length check at %s can be reached before the non-persistable %s check at %s: an event violating both is reported persistable", c.P.Pos(fw.InstrPos(l.iff)), h.kind, c.P.Pos(fw.InstrPos(h.iff))))
+			c.Check(hardBeforeLenient(h, l), rule, "CheckFields: hard limits are checked before byte-only limits", c.P.Pos(fw.InstrPos(l.iff)), "", fmt.Sprintf("the persistable byte-length check at %s can be reached before the non-persistable %s check at %s: an event violating both is reported persistable", c.P.Pos(fw.InstrPos(l.iff)), h.kind, c.P.Pos(fw.InstrPos(h.iff))))
+		}
+	}
+	// across the untrusted constructors: the room-ID validation and CheckFields together
+	for short, ctor := range tableFuncs(c, rule, "newEventFromUntrustedJSONFunc") {
+		all := limitSites(ctor, func(f *ssa.Function) bool {
+			return f.Object() == nil || !f.Object().Exported() || fw.FuncName(f) == "gmsl.CheckFields"
+		})
+		var hs, ls []limitSite
+		for _, s := range all {
+			if s.kind == "bytes" && s.persistSet {
+				ls = append(ls, s)
+			} else if s.kind != "bytes" {
+				hs = append(hs, s)
+			}
+		}
+		// one obligation per (constructor, routine holding the byte-only check)
+		bad := map[string]string{}
+		seen := map[string]bool{}
+		for _, l := range ls {
+			what := "?"
+			if cc, ok := l.anchor().(ssa.CallInstruction); ok {
+				what = strings.TrimPrefix(fw.CalleeName(cc), "gmsl.")
+			}
+			seen[what] = true
+			for _, h := range hs {
+				if !hardBeforeLenient(h, l) {
+					bad[what] = fmt.Sprintf("the persistable byte-length check at %s (reached through %s) can run before the non-persistable %s check at %s: an event that only exceeds the byte limit there but breaks a hard limit elsewhere is reported persistable", c.P.Pos(fw.InstrPos(l.iff)), what, h.kind, c.P.Pos(fw.InstrPos(h.iff)))
+				}
+			}
+		}
+		for _, what := range sortedSet(seen) {
+			construct := short + ": the byte-only limit checked through " + what + " follows every hard limit"
+			if d, isBad := bad[what]; isBad {
+				c.Fail(rule, construct, c.P.Pos(ctor.Pos()), d)
+			} else {
+				c.Ok(rule, construct, c.P.Pos(ctor.Pos()), "")
+			}
 		}
 	}
 }
@@ -369,11 +495,14 @@ func checkFieldsTable(c *fw.Ctx) {
 // entered or skipped before l; l must be unreachable from inside that region without passing h,
 // and the region's entry must dominate l. We accept when the block deciding to enter h's region
 // dominates l and h's failing edge does not reach l.
-func postDominatedSkip(h, l *ssa.If) bool {
-	hb := h.Block()
+func postDominatedSkip(hb, lb *ssa.BasicBlock) bool {
+	// l must come after h: no way back from l to h
+	if hb == lb || fw.ReachableFrom(lb, nil)[hb] {
+		return false
+	}
 	// walk up through single-predecessor chain to the deciding block
 	d := hb.Idom()
-	for d != nil && !d.Dominates(l.Block()) {
+	for d != nil && !d.Dominates(lb) {
 		d = d.Idom()
 	}
 	if d == nil {
@@ -383,7 +512,7 @@ func postDominatedSkip(h, l *ssa.If) bool {
 	// Remove hb: l must still be reachable (region skipped) and every path from hb's region entry goes through hb.
 	// The region entry is the successor of d that dominates hb.
 	for _, s := range d.Succs {
-		if s.Dominates(hb) && s != l.Block() && !s.Dominates(l.Block()) {
+		if s.Dominates(hb) && s != lb && !s.Dominates(lb) {
 			// blocks in the region before hb
 			removed := map[fw.Edge]bool{}
 			for _, p := range hb.Preds {
@@ -393,7 +522,7 @@ func postDominatedSkip(h, l *ssa.If) bool {
 			if s == hb {
 				return true
 			}
-			return !reach[l.Block()]
+			return !reach[lb]
 		}
 	}
 	return false
